@@ -1293,7 +1293,9 @@ std::string importeeModelUrl(const History &history, const std::string &url)
 bool checkForImportCycles(const History &history, const HistoryEpochPtr &h)
 {
     return std::any_of(history.begin(), history.end(), [h](const auto &entry) {
-        return ((h->mDestinationUrl == entry->mSourceUrl) || ((entry->mSourceUrl == ORIGIN_MODEL_REF) && (entry->mSourceModel != nullptr) && (entry->mSourceModel->equals(h->mDestinationModel))));
+        // The same entity of the same model instance is already part of this chain of imports.
+        bool sameEntity = (entry->mSourceModel != nullptr) && (entry->mSourceModel == h->mSourceModel) && (entry->mName == h->mName) && (entry->mType == h->mType);
+        return (sameEntity || (h->mDestinationUrl == entry->mSourceUrl) || ((entry->mSourceUrl == ORIGIN_MODEL_REF) && (entry->mSourceModel != nullptr) && (entry->mSourceModel->equals(h->mDestinationModel))));
     });
 }
 
